@@ -243,7 +243,13 @@ func (m *model) onExecuteStart(s *streamSim) {
 		exp.sizeClass = exp.classes[e.Plan.Choice%len(exp.classes)]
 	} else {
 		exp.errCode = codes.FailedPrecondition
-		if m.w.clk.Now().Before(m.startAt.Add(queueTimeout)) {
+		judgedAt := m.w.clk.Now()
+		if !m.w.slowFetchTarget.IsZero() {
+			// Time passes while the action is fetched; the request is
+			// judged when the scheduler looks at its state.
+			judgedAt = m.w.slowFetchTarget
+		}
+		if judgedAt.Before(m.startAt.Add(queueTimeout)) {
 			exp.errCode = codes.Unavailable
 		}
 	}
